@@ -4,6 +4,7 @@ import (
 	"bytes"
 	"encoding/json"
 	"fmt"
+	"reflect"
 	"strings"
 	"testing"
 	"unicode/utf8"
@@ -210,12 +211,21 @@ func checkRowsJSON(v interface{}, rows []*gobinlog.RowData, what string) error {
 // checkTxJSON serialises a transaction and checks the structure of the result.
 func checkTxJSON(tx *gobinlog.Transaction) error {
 	var out []byte
+	before := cloneTx(tx)
+	defer func() { _ = before }()
 	err := guard(func() (e error) { out, e = json.Marshal(tx); return })
+	if err == nil && !reflect.DeepEqual(before, tx) {
+		a, _ := json.Marshal(before)
+		return fmt.Errorf("serialising the transaction changed it; it was %.400s and now serialises as %.400s", a, out)
+	}
 	if err != nil {
 		return fmt.Errorf("json.Marshal failed: %v", err)
 	}
 	if !json.Valid(out) {
 		return fmt.Errorf("output is not valid JSON: %.300s", out)
+	}
+	if !utf8.Valid(out) {
+		return fmt.Errorf("output is not UTF-8 (JSON text is UTF-8, RFC 8259 section 8.1): %.300q", out)
 	}
 	// the direct MarshalJSON call (what cmd/binlogDump does) must give the same bytes, and bytes it
 	// returned earlier must not change when further transactions are serialised
